@@ -1,4 +1,5 @@
 import AtsimModel.Model.Filter
+import AtsimModel.Gen.Logic
 /-!
 # C13 — species filtering equals deleting the unwanted interactions from the file
 
@@ -128,5 +129,34 @@ theorem C13_shared_state_witness :
     runShared [⟨["A"], 1⟩, ⟨["B"], 2⟩] [.create false ["A"], .read 0, .create true ["A"], .read 0] = [none, some [⟨["A"], 1⟩], none, some [⟨["B"], 2⟩]] ∧
     runPerView [⟨["A"], 1⟩, ⟨["B"], 2⟩] [.create false ["A"], .read 0, .create true ["A"], .read 0] = [none, some [⟨["A"], 1⟩], none, some [⟨["A"], 1⟩]] := by
   refine ⟨by decide, by decide⟩
+
+/-! ## The code itself: `_check_tuple` regenerated from the source
+
+`Atsim.Gen.Logic.check_tuple` is produced by `translator/py2lean_logic.py` from the text of
+`FilteredConfigParser._check_tuple` on every run (loop with early returns → structural recursion; the two attributes it reads are parameters).
+The hand-written `checkTuple` of `Model/Filter.lean` IS that function, so every theorem above holds of the code as it is written now. -/
+namespace CodeTie
+open Atsim.Gen.Logic
+
+theorem check_tuple_loop_eq (S : List Sp) (ex : Bool) (orig t : List Sp) :
+    check_tuple_loop1 orig ex S t = checkTuple ex S t := by
+  induction t with
+  | nil => simp [check_tuple_loop1, checkTuple]
+  | cons v rest ih =>
+    simp only [check_tuple_loop1, checkTuple, ih]
+    cases ex <;> cases S.contains v <;> simp
+
+end CodeTie
+
+/-- **code tie**: the regenerated `_check_tuple` is the model's `checkTuple`, for every species list, mode and tuple -/
+theorem C13_code_check_tuple (S : List Sp) (ex : Bool) (t : List Sp) :
+    Atsim.Gen.Logic.check_tuple S ex t = checkTuple ex S t := by
+  unfold Atsim.Gen.Logic.check_tuple
+  exact CodeTie.check_tuple_loop_eq S ex t t
+
+/-- hence the property's statement about the code's own function: an entry is kept iff (include) all / (exclude) none of its species are listed -/
+theorem C13_code_check_tuple_spec (S : List Sp) (ex : Bool) (t : List Sp) :
+    Atsim.Gen.Logic.check_tuple S ex t = (if ex then t.all (fun s => !S.contains s) else t.all (fun s => S.contains s)) := by
+  rw [C13_code_check_tuple, checkTuple_spec]
 
 end Atsim.C13
